@@ -154,9 +154,14 @@ def plan_C02(q, seed):
     jobs += san_samples(q, weak=2)
     jobs += [e2(fam_job("WF", 15000 if q else 300000, time_limit=20 if q else 300))]
     jobs += [e3(enum_job(2, 2, sample=1 if not q else 40, lo=0), 40 if q else 900)]
+    # the statement of C02 has no well-formedness precondition: memory-safety reports in histories that
+    # elide unadopt count as well (premature destructions predicted by the known C13 finding stop the
+    # history before any damage and are not reported here)
+    jobs += [rand_job("ELIDE", 60000 if q else 1200000, time_limit=20 if q else 300, label="rand-ELIDE-memsafety-e1")]
     return {
         "jobs": jobs,
-        "rule": "well-formed histories with Weak handles outside and inside values; exactly-once oracle on destructor starts (canary), allocator oracle (double/invalid free, write-after-free in quarantine mode), moved-out-field poison (H2) turning stale table reads into deterministic panics, AddressSanitizer reports and Miri UB errors as process deaths. Non-trivial = an object was destroyed while handles to it or a group teardown or a zero-count-with-adoptions teardown were involved; distinct = distinct operation sequences",
+        "accept_foreign": [["C13", "once"], ["C13", "panic"]],
+        "rule": "well-formed histories with Weak handles outside and inside values (plus histories that elide unadopt, for memory-safety reports only); exactly-once oracle on destructor starts (canary), allocator oracle (double/invalid free, write-after-free in quarantine mode), moved-out-field poison (H2) turning stale table reads into deterministic panics, AddressSanitizer reports and Miri UB errors as process deaths. Non-trivial = an object was destroyed while handles to it or a group teardown or a zero-count-with-adoptions teardown were involved; distinct = distinct operation sequences",
         "assumptions": E1_ASSUME + SAN_ASSUME,
         "require": {"paths.group": 100, "paths.with_adoptions": 100, "paths.dead_handle": 100},
     }
@@ -209,8 +214,11 @@ def plan_C04(q, seed):
 def plan_C05(q, seed):
     jobs = wf_core(q, weak=4) + [fam_job("WF", 60000 if q else 1500000, time_limit=20 if q else 300)]
     jobs += san_samples(q, weak=4)
+    # Weak handles to allocations given up by try_unwrap / make_mut must report dead as well
+    jobs += [rand_job("CONSUME", 60000 if q else 1200000, weak=3, time_limit=20 if q else 300, extra=["--consume-bias", "3"], label="rand-CONSUME-weak-e1")]
     return {
         "jobs": jobs,
+        "accept_foreign": [["C12", "weak"]],
         "rule": "well-formed histories dense in downgrade/upgrade/clone/drop of Weak handles held by the program and stored in values (to self, peers, outsiders); after every operation every Weak reports strong_count/weak_count equal to the ledger (0/0 once the target is destroyed), every upgrade result is compared with the ledger and the returned handle must be the original allocation; every dying value probes all Weak handles it owns from inside its destructor. Non-trivial = Weak observations were made in a history where objects were destroyed; distinct = distinct operation sequences",
         "assumptions": E1_ASSUME + SAN_ASSUME,
         "require": {"stats.wprobes_dead": 1000, "stats.upgrades_none": 1000, "stats.upgrades_some": 1000, "paths.group": 100},
@@ -221,9 +229,12 @@ def plan_C06(q, seed):
     jobs = wf_core(q) + [
         rand_job("FULL", 60000 if q else 1500000, time_limit=20 if q else 300),
         fam_job("WF", 60000 if q else 1500000, time_limit=20 if q else 300),
+        # counts and identity across make_mut, raw round trips, increment/decrement_strong_count
+        rand_job("CONSUME", 80000 if q else 1500000, time_limit=20 if q else 300, extra=["--consume-bias", "4"], label="rand-CONSUME-counts-e1"),
     ]
     return {
         "jobs": jobs,
+        "accept_foreign": [["C12", "count"]],
         "rule": "after every operation, for every live object (also unreachable garbage, read through stored handles by reference): Rc::strong_count, Rc::weak_count, Weak::strong_count, Weak::weak_count, as_ptr (must equal the address at creation) and pairwise ptr_eq of all handles are compared with the ledger. Non-trivial = counts were compared in a history where objects were destroyed (partial collections next to survivors); distinct = distinct operation sequences",
         "require": {"stats.count_obs": 100000, "paths.group": 100},
     }
